@@ -60,6 +60,19 @@ func dumpLocs(sci *descriptorpb.SourceCodeInfo) []any {
 // index into a repeated field must be smaller than its length, and a path may only continue
 // through message-typed fields. The empty string means the path names an existing element.
 func checkPath(root protoreflect.Message, path []int32, res linker.Resolver) string {
+	why, _ := walkPath(root, path, res)
+	return why
+}
+
+// walkPath also reports the index of the path component that enters an options message
+// (google.protobuf.*Options), -1 if the path does not lead into one.
+func walkPath(root protoreflect.Message, path []int32, res linker.Resolver) (string, int) {
+	optAt := -1
+	why := walkPath1(root, path, res, &optAt)
+	return why, optAt
+}
+
+func walkPath1(root protoreflect.Message, path []int32, res linker.Resolver, optAt *int) string {
 	m := root
 	md := root.Descriptor()
 	i := 0
@@ -75,6 +88,10 @@ func checkPath(root protoreflect.Message, path []int32, res linker.Resolver) str
 				return fmt.Sprintf("component %d: %s has no field %d", i, md.FullName(), num)
 			}
 			fd = xt.TypeDescriptor()
+		}
+		if *optAt < 0 && fd.Message() != nil && fd.Message().ParentFile().Path() == "google/protobuf/descriptor.proto" &&
+			strings.HasSuffix(string(fd.Message().Name()), "Options") {
+			*optAt = i
 		}
 		i++
 		var val protoreflect.Value
@@ -275,10 +292,13 @@ func srcinfoCase(in map[string]any) map[string]any {
 				return out
 			}
 			var bads []any
+			ls := locs[key].([]any)
 			for i, loc := range fdp.GetSourceCodeInfo().GetLocation() {
-				if why := checkPath(re.ProtoReflect(), loc.Path, resolver); why != "" {
+				why, optAt := walkPath(re.ProtoReflect(), loc.Path, resolver)
+				if why != "" {
 					bads = append(bads, []any{i, why})
 				}
+				ls[i].(map[string]any)["o"] = optAt
 			}
 			if bads == nil {
 				bads = []any{}
